@@ -14,7 +14,7 @@ RULE = ('case = 1-4 rule ASTs (C01 generator, derived rules share patterns / pre
         'whole and changes nothing): expected handler = first registered of [M, GET if M == HEAD, ANY]; otherwise 405 whose Allow header parsed as a '
         'comma-separated list is duplicate-free and equals the registered set; 404 iff the reference matcher finds no route (never 405 without a route, never '
         '404 with one). Observed on Ombott.to_route / RadiRouter.resolve and on the status line, Allow header and handler actually run through Ombott.__call__. '
-        'Plus: an overwrite=True registration on one thread against a request on another under every single-preemption schedule (answer must come from the old or the new handler). Non-trivial = the request exercises a fallback (HEAD->GET, ->ANY), a 405, a case-folded method name, or a route whose table was overwritten / reduced; '
+        'Route hooks (per-prefix 404 handlers via error(404, rule=prefix), on_route hooks) may be installed on prefixes of the rules at any step: a 405 stays a 405 with Allow and never runs a prefix 404 handler. Plus: an overwrite=True registration on one thread against a request on another under every single-preemption schedule (answer must come from the old or the new handler). Non-trivial = the request exercises a fallback (HEAD->GET, ->ANY), a 405, a case-folded method name, or a route whose table was overwritten / reduced; '
         'distinct by case hash + request.')
 ASSUMPTIONS = ['route selection itself is C01; here paths are exact instantiations or clear misses, empty-binding verdicts are skipped',
                'a route whose methods were all removed still exists (405 with an empty Allow), as the property says 404 is for paths that match no route']
@@ -47,6 +47,10 @@ def case_st(draw):
             events.append(req())
     for _ in range(4):
         events.append(req())
+    # route hooks (per-prefix 404 handlers, on_route hooks) on prefixes of the rules: they must not change which verb is served or refused
+    for _ in range(draw(st.sampled_from([0, 0, 1, 2]))):
+        events.insert(draw(st.integers(0, max(0, len(events) - 4))), {'op': 'hook', 'kind': draw(st.sampled_from(['err404', 'err404', 'on_route'])),
+                                                                       'rule': draw(st.integers(0, len(asts) - 1)), 'cut': draw(st.integers(1, 4)), 'methods': [], 'as_str': False})
     return {'asts': asts, 'choice': draw(st.lists(st.integers(0, 30), max_size=3)), 'spell': draw(st.integers(0, 1)), 'events': events}
 
 
@@ -72,6 +76,24 @@ def check_case(ctx, case):
     for si, stp in enumerate(events):
         if stp.get('req'):
             _request(ctx, case, app, box, model, order, texts, stp, edits_seen)
+            continue
+        if stp['op'] == 'hook':
+            pre = R.merge(case['asts'][stp['rule']][:stp['cut']])
+            ptext = R.render(pre, case['choice'], case['spell']) if pre and pre[0][0] == 'lit' and pre[0][1].startswith('/') else None
+            if ptext is None:
+                continue
+            try:
+                if stp['kind'] == 'err404':
+                    def p404(route, params):
+                        box['hook'] = 'err404'
+                        app.response.status = 404
+                        return 'prefix-404'
+                    app.error(404, rule=ptext)(p404)
+                else:
+                    app.on_route(ptext, lambda route: box.__setitem__('simple', route))
+                ctx.count('hook_installed_' + stp['kind'])
+            except Exception:
+                ctx.count('hook_rejected')
             continue
         edits_seen += 1
         ast = R.merge(case['asts'][stp['rule']])
@@ -169,8 +191,9 @@ def _request(ctx, case, app, box, model, order, texts, rq, edits_seen):
             if r.code != 404:
                 raise CheckFailure(f'routes {desc}: {method} {path!r} matches no route, answered {r.status!r}')
         elif want[0] == '405':
-            if r.code != 405:
-                raise CheckFailure(f'routes {desc}: {method} {path!r}: no handler among {cands}, expected 405, answered {r.status!r} (handler run: {box.get("ran")})')
+            if r.code != 405 or box.get('hook'):
+                raise CheckFailure(f'routes {desc}: {method} {path!r}: no handler among {cands}, expected 405, answered {r.status!r} (handler run: {box.get("ran")}, '
+                                   f'prefix 404 hook run: {box.get("hook")})')
             allow = r.header_all('Allow')
             if len(allow) != 1:
                 raise CheckFailure(f'routes {desc}: 405 for {method} {path!r} carries {len(allow)} Allow headers: {allow}')
@@ -227,9 +250,25 @@ def run(ctx):
                 case = {'asts': [[['lit', '/r/'], ['w', 'x', None, None]]], 'choice': [], 'spell': 0, 'events': steps + reqs + tail}
                 ctx.guarded(check_case, case)
         ctx.count('method_subset_grid')
+        # the same grid for three verb sets with a per-prefix 404 handler and an on_route hook at / below / above the route
+        for sub in (['GET'], ['POST', 'ANY'], ['GET', 'HEAD', 'PUT'], []):
+            for kind in ('err404', 'on_route'):
+                for cut in (1, 2):
+                    for hook_first in (True, False):
+                        reqs = [{'req': True, 'method': v, 'path': p} for v in ['GET', 'HEAD', 'POST', 'PUT', 'DELETE'] for p in ['/r/1', '/r', '/r/1/2', '/nope']]
+                        steps = [{'op': 'add', 'rule': 0, 'methods': [m], 'as_str': True} for m in sub]
+                        hk = [{'op': 'hook', 'kind': kind, 'rule': 0, 'cut': cut, 'methods': [], 'as_str': False}]
+                        case = {'asts': [[['lit', '/r/'], ['w', 'x', None, None]]], 'choice': [], 'spell': 0, 'events': (hk + steps if hook_first else steps + hk) + reqs}
+                        ctx.guarded(check_case, case)
+        ctx.count('hooked_route_grid')
         for reg, over, req in ((['GET'], ['GET'], 'GET'), (['GET', 'POST'], ['POST'], 'POST'), (['GET', 'ANY'], ['GET'], 'GET'), (['GET'], ['GET', 'PUT'], 'HEAD'),
                                (['ANY'], ['ANY'], 'DELETE')):
             ctx.guarded(check_concurrent_overwrite, {'registered': reg, 'overwrite': over, 'request': req})
+    if ctx.shard == 0:
+        for reg, a, b in ((['GET'], ['add', ['POST'], False], ['add', ['PUT'], False]), (['GET', 'POST'], ['add', ['POST'], True], ['remove', ['GET']]),
+                          (['GET', 'POST', 'PUT'], ['remove', ['POST']], ['remove', ['PUT']]), (['GET'], ['add', ['POST', 'DELETE'], False], ['remove', ['GET']]),
+                          (['GET'], ['add', ['PUT'], False], ['add', ['PUT'], False]), (['ANY'], ['add', ['GET'], False], ['add', ['ANY'], True])):
+            ctx.guarded(check_concurrent_edits, {'registered': reg, 'ops': [a, b]})
     n = 1500 if ctx.tier == "quick" else 20000
     ctx.hyp(case_st(), check_case, n)
 
@@ -288,7 +327,74 @@ def check_concurrent_overwrite(ctx, case):
     ctx.count('concurrent_overwrite_schedules', y0 + 1)
 
 
+def check_concurrent_edits(ctx, case):
+    """Two threads edit the method table of the SAME route at the same time (add further verbs, overwrite, remove): afterwards every verb is
+    answered as after one of the two sequential orders (every single-preemption schedule of either thread)."""
+    import ombott
+    from vlib.sched import Scheduler, BIG
+    from checks.c08_threads import relevant
+    verbs, ops = case['registered'], case['ops']
+
+    def fresh():
+        app = ombott.Ombott()
+        for v in verbs:
+            app.route('/r/<x>', method=v, callback=(lambda v=v: (lambda **kw: 'old-' + v))())
+        return app
+
+    def op_fn(app, i, op, out):
+        # the edits go through the Route object (Route.add_method / set_method / remove_method): parsing a rule is not part of what is raced here
+        route = app.router[{'/r/<x>'}]
+
+        def fn():
+            try:
+                if op[0] == 'add':
+                    (route.set_method if op[2] else route.add_method)(list(op[1]), (lambda **kw: 'new%d' % i))
+                else:
+                    route.remove_method(list(op[1]))
+                out[i] = 'ok'
+            except Exception as e:
+                out[i] = type(e).__name__
+        return fn
+
+    def signature(app, out):
+        sig = []        # (whether a racing duplicate registration is refused is a check-then-act matter outside the property: only the resulting dispatch is judged)
+        for v in ['GET', 'HEAD', 'POST', 'PUT', 'DELETE']:
+            r = call_app(app, make_environ(v, '/r/1'))
+            allow = sorted(x.strip() for x in (r.header('Allow') or '').split(',') if x.strip())
+            sig.append((v, r.code, r.body if r.code == 200 and v != 'HEAD' else None, tuple(allow)))
+        return sig
+    allowed = []
+    for order in ((0, 1), (1, 0)):
+        app, out = fresh(), {}
+        for i in order:
+            op_fn(app, i, ops[i], out)()
+        allowed.append(signature(app, out))
+
+    def run(schedule):
+        app, out = fresh(), {}
+        sc = Scheduler([op_fn(app, 0, ops[0], out), op_fn(app, 1, ops[1], out)], schedule, relevant)
+        sc.run()
+        for e in sc.errors:
+            if e is not None:
+                raise CheckFailure(f'thread raised {fmt_exc(e)} under schedule {schedule}')
+        sig = signature(app, out)
+        if sig not in allowed:
+            raise CheckFailure(f'route with {verbs}; edits {ops} running concurrently under schedule {schedule}: afterwards the route answers {sig}, '
+                               f'after either sequential order it answers {allowed[0]} or {allowed[1]}')
+        ctx.evals += 1
+        ctx.nontrivial('edits:' + repr((verbs, ops, schedule)))
+        return sc.yields
+    y = run([[0, BIG], [1, BIG]])
+    for k in range(0, y[0] + 1):
+        run([[0, k], [1, BIG], [0, BIG]])
+    for k in range(0, y[1] + 1):
+        run([[1, k], [0, BIG], [1, BIG]])
+    ctx.count('concurrent_edit_schedules', y[0] + y[1] + 2)
+
+
 def replay(ctx, case):
+    if 'ops' in case:
+        return check_concurrent_edits(ctx, case)
     if 'registered' in case:
         return check_concurrent_overwrite(ctx, case)
     check_case(ctx, case)
